@@ -145,7 +145,7 @@ def r2_hash_weights(ctx):
             if isinstance(x, ast.Call) and isinstance(x.func, ast.Attribute) and x.func.attr == "astype" and x.args and u(x.args[0]) in ("float", "np.float64", "np.float32"):
                 inexact.append(u(x))
     ctx.ob(ts.where, "the digits of a code are extracted in integer arithmetic (shift / floor division / modulo): a float quotient loses the low digits of codes above 2**53",
-           not inexact, "; ".join(inexact[:3]), key="C13-R2|to_string-integer")
+           not inexact, "; ".join(inexact[:3]), key="C13-R2|to_string-integer", definite=True)
     bad = []
     total = 0
     for n in (2, 3, 4, 5):
@@ -426,7 +426,7 @@ def r10_pwm_letters(ctx):
         okb = False
     if okb is None:
         raise Unrecognised(f"{f.where}: background vector `{u(B)}`")
-    ctx.ob(f.where, "the background probability of row i is looked up by row i's own letter (the background dict's own order is irrelevant)", okb, u(B), key="C13-R10|background-by-key")
+    ctx.ob(f.where, "the background probability of row i is looked up by row i's own letter (the background dict's own order is irrelevant)", okb, u(B), key="C13-R10|background-by-key", definite=True)
     g = ix.func(PW, "PWM.as_valid_encoded_array")
     sq = g.params[1]
     cfg = CFG(g.node)
@@ -446,8 +446,8 @@ def r10_pwm_letters(ctx):
         if not okpre and any(("==" in k and "[:" in k) for k in about):
             raise Unrecognised(f"{g.where}: alphabet comparison `{about}`")
         ctx.ob(g.where, "an already encoded sequence is scored as it is only if its alphabet starts with the matrix alphabet in the same order (code i must mean matrix row i)",
-               okpre, f"guards: {sorted(about)}", key="C13-R10|prefix-order")
-        ctx.ob(g.where, "... and only if none of its codes lies beyond the matrix rows", okmax, "", key="C13-R10|codes-in-range")
+               okpre, f"guards: {sorted(about)}", key="C13-R10|prefix-order", definite=True)
+        ctx.ob(g.where, "... and only if none of its codes lies beyond the matrix rows", okmax, "", key="C13-R10|codes-in-range", definite=True)
     ctx.floor("pass-through returns of PWM.as_valid_encoded_array", n, 1)
 
 
